@@ -2,6 +2,7 @@ import Hms.Sexp
 import Hms.Conc.Protocol
 import Hms.Conc.Invoke
 import Hms.Conc.Poll
+import Hms.Conc.Spawn
 import HmsGen.Enums
 /-! Driver commands of the "Host" area (C16, C10, C17). `dispatchHost cmd payload` answers
 `some line` for the commands it owns and `none` otherwise.
@@ -186,10 +187,48 @@ def cmdPollModel (payload : String) : String :=
         " | ".intercalate (s!"FULL sig={sigS full.sig} steps={full.t} polls={full.polls} tpp={natList full.trace}" :: perK)
       | _, _ => "FUEL"
 
+/-! ### `spawnmodel (seeds <n>…) (progs (<act>…)…)`
+
+Acts: `(p x<line>)` print a line, `(s <j>)` spawn a core running program `j`, `w` write a global,
+`r` read a global, `f` fail (fatal). Program 0 is the entry function. For every seed the
+executable interleaving model (`Hms.Conc.runSys`) is run under the schedule of that seed.
+Answer per seed: `R=<OK|FATAL|TERM|EXIT|STUCK> lines=<hex of the sorted lines> cores=<n> lock=… live=<n>`. -/
+
+private def parseAct (sx : Sexp) : Option Act :=
+  match sx with
+  | .atom "w" => some .gwrite
+  | .atom "r" => some .gread
+  | .atom "f" => some .fail
+  | .list [.atom "p", l] => l.asStr?.map Act.print
+  | .list [.atom "s", j] => j.asNat?.map Act.spawn
+  | _ => none
+
+def cmdSpawnModel (payload : String) : String :=
+  match Sexp.parse ("(" ++ payload ++ ")") with
+  | none => "BAD-INPUT"
+  | some sx =>
+    let parts := sx.items
+    let seeds := ((findArg "seeds" parts).map Sexp.args).getD [] |>.filterMap Sexp.asNat?
+    match ((findArg "progs" parts).map Sexp.args).getD [] |>.mapM (fun p => p.items.mapM parseAct) with
+    | none => "BAD-INPUT"
+    | some progs =>
+      let nacts := progs.foldl (fun a p => a + p.length) 0
+      let answers := seeds.map fun seed =>
+        let s := runSys Cfg.fixed (schedule seed (60 * nacts + 400)) (Sys.start progs)
+        let outcome := match s.proto.wait with
+          | .returned none => "OK"
+          | .returned (some (_, i)) => (intrName i).toUpper
+          | _ => "STUCK"
+        let lines := (s.out.toArray.qsort (· < ·)).toList
+        let live := (List.range s.proto.n).filter (fun c => (s.proto.core c).isLive) |>.length
+        s!"R={outcome} lines={hexStr ("\n".intercalate lines)} cores={s.proto.listed.length} lock={lockS s.proto} live={live}"
+      " | ".intercalate answers
+
 def dispatchHost (cmd : String) (payload : String) : Option String :=
   match cmd with
   | "hostmodel" => some (cmdHostModel payload)
   | "pollmodel" => some (cmdPollModel payload)
+  | "spawnmodel" => some (cmdSpawnModel payload)
   | _ => none
 
 end Driver
